@@ -6,7 +6,7 @@ import random
 import threading
 
 from .. import lib as vlib
-from ..engines import delegation, envelope, rootchain
+from ..engines import delegation, envelope, inplace, rootchain
 from ..gen import entries as gentries, jsonvals, keys as gkeys, metadata as gmd, palette
 from ..monitors import boundary, sysmon
 from ..refs import canonjson, models
@@ -45,6 +45,7 @@ def plan(tier, seed):
     specs = []
     for _ in range(3 if q else 8):
         specs.append({"kind": "args", "count": 400 if q else 4000})
+    specs.append({"kind": "inplace", "count": 50 if q else 600})
     for i in range(2 if q else 10):
         specs.append({"kind": "history", "pool_seed": seed * 31 + i, "calls": 400 if q else 2000})
     for T in ([4, 8] if q else [2, 4, 8, 16]):
@@ -469,7 +470,19 @@ def run_corpus(spec, rec, lib):
     rec.count("corpus_calls", len(idx))
 
 
+def run_inplace(spec, rec, lib):
+    """verdicts follow the CURRENT content of long-lived arguments (no stale snapshots keyed on object identity)"""
+    rng = random.Random(spec["seed"])
+    for i in range(spec["count"]):
+        for mech, msg, case in inplace.delegation_history(rng, lib, rec, "C12", steps=12) + inplace.envelope_history(rng, lib, rec, steps=12):
+            rec.violation(mech, msg, case)
+        rec.case("inplace|%d|%d" % (spec["seed"], i))
+    rec.sample({"inplace_history": "long-lived trusted dict / envelope / key list mutated in place between calls"})
+
+
 def run_shard(spec, rec, lib):
+    if spec.get("kind") == "inplace":
+        return run_inplace(spec, rec, lib)
     if spec.get("cwd") == "@nonascii":
         d = os.path.join(spec["scratch"], "dé中")
         os.makedirs(d, exist_ok=True)
@@ -529,5 +542,7 @@ def replay(case, rec, lib):
         rec.case("replay")
         if mutated:
             rec.violation("argument-mutation/verify_delegation", "replay", case)
+    elif k in ("inplace_deleg", "inplace_env"):
+        run_inplace({"seed": 1, "count": 200}, rec, lib)
     else:
         run_args({"seed": 1, "count": 60}, rec, lib)
